@@ -82,7 +82,7 @@ def _setup_threads() -> None:
     import jinja2.utils as U
 
     T.TOGGLE_LINE[0] = True
-    T.install(src, line_events=True, instr_classes=[U.LRUCache])
+    T.install(src, line_events=True, instr_classes=[U.LRUCache, __import__("functools").cached_property])
     U.Lock = T.SimLock
     T.neutralise_real_locks()
     T.install_threading_factories()
@@ -102,9 +102,17 @@ def run_threads(tape: Tape) -> Outcome:
 
     out = Outcome()
     cfg = {"async": bool(tape.draw(2)), "sandboxed": tape.draw(4) == 3, "loopcontrols": bool(tape.draw(2)),
-           "autoescape": bool(tape.draw(2))}
-    g = Gen(tape, is_async=cfg["async"], loopcontrols=cfg["loopcontrols"], compile_bias=True, size=2 + tape.draw(3))
+           "autoescape": bool(tape.draw(2)), "i18n": tape.draw(3, "m") == 2}
+    g = Gen(tape, is_async=cfg["async"], loopcontrols=cfg["loopcontrols"], compile_bias=True, size=2 + tape.draw(3), i18n=cfg["i18n"])
     P = g.generate()
+    if cfg["i18n"]:
+        # every template ends with trans blocks over its own free variables (the extension instance is shared by all
+        # compilations of the environment)
+        for n_ in sorted(P.templates):
+            fv = g._names(2, 4)
+            P.templates[n_] += ("{% trans %}" + " ".join("{{ %s }}" % v for v in fv) + "{% endtrans %}"
+                                + "{% trans count=n1 %}" + " {{ count }} ".join("{{ %s }}" % v for v in fv[:2]) + "{% pluralize %}"
+                                + " ".join("{{ %s }}" % v for v in reversed(fv)) + "{% endtrans %}")
     names = sorted(P.templates)
     nt = 2 + tape.draw(2)
     shared_env = bool(tape.draw(2))
@@ -113,7 +121,7 @@ def run_threads(tape: Tape) -> Outcome:
     def mk_env():
         cls = SandboxedEnvironment if cfg["sandboxed"] else jinja2.Environment
         return cls(enable_async=cfg["async"], autoescape=cfg["autoescape"],
-                   extensions=["jinja2.ext.loopcontrols"] if cfg["loopcontrols"] else [])
+                   extensions=(["jinja2.ext.loopcontrols"] if cfg["loopcontrols"] else []) + (["jinja2.ext.i18n"] if cfg["i18n"] else []))
 
     def compile_one(env, name):
         try:
